@@ -7,6 +7,7 @@ const overlayActive = false
 func setMapPerm(f func(n int, site string) []int)              {}
 func setFieldHook(f func(addr uintptr, kind int, site string)) {}
 func setSyncHook(f func(kind int, addr uintptr) int)           {}
+func setSpawnHook(f func(func()))                              {}
 
 const (
 	evLock = iota
@@ -18,4 +19,13 @@ const (
 	evAtomicLoad
 	evAtomicStore
 	evAtomicRMW
+	evTryLock
+	evTryRLock
+	evWGAdd
+	evWGDone
+	evWGWait
+	evCondEnq
+	evCondWait
+	evCondSignal
+	evCondBcast
 )
